@@ -431,6 +431,9 @@ func genValidMsg(t *rapid.T, maxHdrs int) MsgSpec {
 	var m MsgSpec
 	m.FL = genFLine(t)
 	n := rapid.IntRange(1, maxHdrs).Draw(t, "nhdrs")
+	if maxHdrs >= 4 && oneIn(t, "nhdrs_needle", 50) {
+		n = manyN(t, "nhdrs_many", 130)
+	}
 	for i := 0; i < n; i++ {
 		var h HdrSpec
 		if rapid.IntRange(0, 2).Draw(t, "core") != 0 {
